@@ -103,6 +103,7 @@ type interpreter struct {
 	sideTab   map[*value]int
 	pools     map[*value][]value
 	fresh     map[*value]*Term
+	hexTexts  []*Term
 }
 
 type deferred struct {
@@ -557,8 +558,11 @@ func callSSA(i *interpreter, caller *frame, callpos token.Pos, fn *ssa.Function,
 			if i.mode&EnableTracing != 0 {
 				fmt.Fprintln(os.Stderr, "\t(external)")
 			}
-			i.ps.stubs[name]++
-			return ext(fr, args)
+			r := ext(fr, args)
+			if _, nh := r.(notHandled); !nh {
+				i.ps.stubs[name]++
+				return r
+			}
 		}
 		if fn.Blocks == nil {
 			panic(engineError("no code for function: " + name))
